@@ -108,6 +108,13 @@ def run(tier, seed, model_ok, spec_ok, replay=None):
     n = 400 if tier == "quick" else 12000
     viol = []
     dist = Counter()
+    # large specs (more distinct plain keys than a default-sized cache holds) with equal keys of different types far apart
+    many = [f"k{j}" for j in range(140)]
+    for a, b in ((1.0, True), (True, 1.0), (0, False), (1, 1.0)):
+        check("path", v.DataPath.from_spec, {"path": [a] + many + [b]}, viol, dist)
+        check("path", lambda sp: v.DataPath.from_part_specs(*sp), [a] + many + [b], viol, dist)
+    check("schema", lambda sp: v.Schema([v.Rule.from_spec(r) for r in sp["rules"]]),
+          {"rules": [{"path": [k], "condition": {"value.equal_to": 1}} for k in [1.0] + many + [True]]}, viol, dist)
     for i in range(n):
         doc = g.document(3, 4)
         t = normalise_cond(cg.tree(doc, depth=g.r.choice([0, 1, 2]), null_p=0.1))
